@@ -999,10 +999,7 @@ class Message(ABC):
             value = self.__raw_get(name)
             if value is not PLACEHOLDER:
                 kwargs[name] = deepcopy(value)
-        copied = self.__class__(**kwargs)  # type: ignore
-        copied.__dict__["_unknown_fields"] = self._unknown_fields
-        copied.__dict__["_serialized_on_wire"] = self._serialized_on_wire
-        return copied
+        return self._copied_from(kwargs)
 
     def __copy__(self: T, _: Any = {}) -> T:
         kwargs = {}
@@ -1010,7 +1007,19 @@ class Message(ABC):
             value = self.__raw_get(name)
             if value is not PLACEHOLDER:
                 kwargs[name] = value
+        return self._copied_from(kwargs)
+
+    def _copied_from(self: T, kwargs: Dict[str, Any]) -> T:
+        # Passing a sub-message to the constructor may mark it as present (a
+        # message without fields always is): a copy has the presence of its source.
+        present = {
+            name: value._serialized_on_wire
+            for name, value in kwargs.items()
+            if isinstance(value, Message)
+        }
         copied = self.__class__(**kwargs)  # type: ignore
+        for name, flag in present.items():
+            kwargs[name]._serialized_on_wire = flag
         copied.__dict__["_unknown_fields"] = self._unknown_fields
         copied.__dict__["_serialized_on_wire"] = self._serialized_on_wire
         return copied
